@@ -13,7 +13,7 @@ use maybenot::TriggerAction;
 
 use crate::SimEvent;
 
-#[derive(Debug, Clone)]
+#[derive(Clone)]
 pub enum Rec {
     /// an event picked by the main loop, after time was advanced
     Event {
@@ -33,6 +33,15 @@ pub enum Rec {
         machine: usize,
         time: Instant,
         what: &'static str,
+    },
+    /// what the side's framework did during one `trigger_update` (its own hook
+    /// records, see `maybenot::verif`) and its state afterwards
+    Framework {
+        client: bool,
+        time: Instant,
+        event: maybenot::TriggerEvent,
+        steps: Vec<maybenot::verif::Rec<Instant>>,
+        snapshot: maybenot::verif::Snapshot<Instant>,
     },
     /// a decision of `pick_next`: "aggregate", "blocking", "queue", "timer", "action"
     Pick { what: &'static str, client: bool },
@@ -90,6 +99,11 @@ pub(crate) fn rec(f: impl FnOnce() -> Rec) {
             v.push(f());
         }
     });
+}
+
+/// Is recording on for this thread?
+pub fn is_enabled() -> bool {
+    LOG.with(|l| l.borrow().is_some())
 }
 
 /// The private flags of an event (for drivers that hold a `SimEvent`).
